@@ -102,6 +102,7 @@ func genPrograms(size, depth int, atoms []string, constructs [][]string) []strin
 var handShaped = []string{
 	"/r {r} def r",                       // tail self-call: legitimate infinite loop
 	"/r {r 1} def r",                     // non-tail self-call through a name
+	"/b {a 1} def /a {b} 0 get def a",    // the same through an alias (a name whose value is an executable name)
 	"/r {1 r} def r",                     // tail self-call that pushes
 	"/r {{r} exec} def r",                // recursion through exec
 	"/r {true {r} if} def r",             // recursion through if
@@ -259,6 +260,87 @@ func opsStr(finite bool, n int) string {
 }
 
 // ---------------------------------------------------------------------------
+// the budget counts across consecutive Execute calls on one interpreter
+
+// boundaries returns the byte offsets after which prog may be cut (after a
+// token, outside string literals; inside unfinished procedure bodies is fine).
+func boundaries(prog string) []int {
+	var out []int
+	depth := 0
+	for i := 0; i < len(prog); i++ {
+		switch prog[i] {
+		case '(':
+			depth++
+		case ')':
+			depth--
+		case ' ':
+			if depth == 0 && i > 0 && prog[i-1] != ' ' {
+				out = append(out, i)
+			}
+		}
+	}
+	return out
+}
+
+func runPieces(pieces []string, maxOps int) runResult {
+	intp := postscript.NewInterpreter()
+	if err := intp.ExecuteString(preamble); err != nil {
+		panic("preamble: " + err.Error())
+	}
+	intp.NumOps = 0
+	intp.MaxOps = maxOps
+	var err error
+	for _, p := range pieces {
+		err = intp.ExecuteString(p)
+		if err != nil {
+			break
+		}
+	}
+	return runResult{err: err, numOps: intp.NumOps, state: pscmp.Canon(opTable, intp), stack: len(intp.Stack), dstack: len(intp.DictStack)}
+}
+
+func acrossCallsBody(progs []string) func(c *mc.Ctx, item int) mc.Verdict {
+	return func(c *mc.Ctx, item int) mc.Verdict {
+		prog := progs[item]
+		bs := boundaries(prog)
+		if len(bs) == 0 {
+			return mc.Pass("n/a:single-token", false)
+		}
+		if strings.Contains(prog, "stop") {
+			// stop ends one Execute call, not the following ones: not equivalent by definition
+			return mc.Pass("n/a:contains-stop", false)
+		}
+		if memo.item != item || memo.prog != "across:"+prog {
+			memo.item, memo.prog = item, "across:"+prog
+			memo.probe = run(prog, harnessCap)
+		}
+		if memo.probe.err == postscript.ErrExecutionLimitExceeded {
+			return mc.Pass("n/a:non-terminating", false)
+		}
+		if memo.probe.err != nil {
+			// a program that ends in an error cannot be continued by a second call
+			return mc.Pass("n/a:ends-in-error", false)
+		}
+		cut := bs[c.Choose(len(bs))]
+		n := 1 + c.Choose(memo.probe.numOps+2)
+		one := run(prog, n)
+		two := runPieces([]string{prog[:cut], prog[cut:]}, n)
+		c.Steps(2)
+		if one.numOps != two.numOps || errStr(one.err) != errStr(two.err) || (one.err == postscript.ErrExecutionLimitExceeded) != (two.err == postscript.ErrExecutionLimitExceeded) || one.state != two.state {
+			v := mc.Fail("C11:budget-across-calls:{"+kindOf(prog)+"}", fmt.Sprintf("program `%s%s` with budget %d (it needs %d operations): in one call NumOps=%d err=%s; fed as `%s` + `%s` in two calls NumOps=%d err=%s; states equal=%v",
+				preamble, prog, n, memo.probe.numOps, one.numOps, errStr(one.err), prog[:cut], prog[cut:], two.numOps, errStr(two.err), one.state == two.state))
+			v.Render = prog
+			return v
+		}
+		v := mc.Pass("same-as-one-call", true)
+		if c.Render() {
+			v.Render = fmt.Sprintf("`%s` | `%s` budget %d → NumOps=%d err=%s, as in one call", prog[:cut], prog[cut:], n, two.numOps, errStr(two.err))
+		}
+		return v
+	}
+}
+
+// ---------------------------------------------------------------------------
 // runaway growth, unbudgeted
 
 type growth struct {
@@ -305,6 +387,13 @@ func growthCases() []growth {
 		{"/r {/r load exec 1} def r", []string{"execstackoverflow"}},
 		{"/r {s 1} def /s {r 1} def r", []string{"execstackoverflow"}},
 		{"/r {3 dict begin r end} def r", []string{"execstackoverflow", "dictstackoverflow"}},
+		// recursion through a name whose value is another executable name
+		{"/b {a 1} def /a {b} 0 get def a", []string{"execstackoverflow"}},
+		{"/b {a 1} def /a {b} 0 get def b", []string{"execstackoverflow"}},
+		{"/c {a 1} def /b {c} 0 get def /a {b} 0 get def a", []string{"execstackoverflow"}},
+		{"/b {{a} exec 1} def /a {b} 0 get def a", []string{"execstackoverflow"}},
+		{"/b {a pop} def /a {b} 0 get def 1 a", []string{"execstackoverflow", "stackunderflow"}},
+		{"/r {r 1} def /s {r} 0 get def s", []string{"execstackoverflow"}},
 		{"/p 1 array def p 0 {p 0 get exec 1} put p 0 get exec", []string{"execstackoverflow"}},
 		{"errordict /undefined {foo 1} put foo", []string{"undefined", "execstackoverflow"}},
 		{"errordict /typecheck {1 (a) add 1} put 1 (a) add", []string{"typecheck", "execstackoverflow"}},
@@ -505,12 +594,17 @@ func main() {
 				}
 			}
 			gc := growthCases()
+			small2 := genPrograms(2, 2, atoms, constructs)
 			return []mc.Family{
 				{
 					Name: "budget-cut-points", Items: len(progs), Body: budgetBody(progs), Budget: budget,
 					Rule: fmt.Sprintf("%d programs (every shape with <= %d statements over %d atoms and %d constructs, and with <= %d statements over a reduced alphabet of %d atoms and %d constructs, nested to depth 2, plus %d hand-shaped recursion/handler programs) x EVERY budget N in 1..ops(P)+2 (non-terminating programs: N in 1..64 and powers of two below %d); non-trivial = every case (distinct program x budget)", len(progs), size-1, len(atoms), len(constructs), size, len(smallAtoms), len(smallCons), len(handShaped), harnessCap),
 					Describe: func(i int) string { return progs[i] },
 					CrashKey: func(i int) string { return "C11:crash:budget:{" + kindOf(progs[i]) + "}" },
+				},
+				{
+					Name: "budget-across-execute-calls", Items: len(small2), Body: acrossCallsBody(small2), Budget: budget,
+					Rule: fmt.Sprintf("%d terminating programs (shapes with <= 2 statements) x every cut after a token (also inside an unfinished procedure body) x every budget N in 1..ops+2: the two pieces fed in consecutive Execute calls to one interpreter must give the same error identity, the same cumulative NumOps and the same state as the single call with the same budget; non-trivial = every comparison", len(small2)),
 				},
 				{
 					Name: "runaway-growth-unbudgeted", Items: len(gc), Body: growthBody(gc), Budget: budget,
